@@ -122,7 +122,7 @@ func (sr *specRun) fnFree(fn *ssa.Function, args []sval, free []sval, depth int)
 		if i < len(args) {
 			env[p] = args[i]
 		} else {
-			env[p] = symv(p.Name())
+			env[p] = symv(pname(p))
 		}
 	}
 	var outs []specOutcome
